@@ -320,7 +320,7 @@ Absorb(r) ==     \* consolidate the misordered set into the cumulative TSN
 
 \* _handle_data with one DATA chunk: <<receiver', delivered, sack>>
 RecvData(r0, t) ==
-  IF (TGe(r0.last, t) \/ t \in r0.mis) /\ "DupNotFiltered" \notin Dev
+  IF (~TGt(t, r0.last) \/ t \in r0.mis) /\ "DupNotFiltered" \notin Dev      \* (only TSNs strictly ahead are new: d8a6d4d)
     THEN <<r0, <<>>, Sack(r0.last, r0.mis)>>
     ELSE LET r1 == Absorb([r0 EXCEPT !.mis = @ \cup {t}])
              sd == CT[t].sid
